@@ -2,6 +2,7 @@ package main
 
 import (
 	"fmt"
+	"go/ast"
 	"go/token"
 	"go/types"
 	"os"
@@ -27,6 +28,15 @@ type Verifier struct {
 	vcDir     string
 	rangeTimeout int
 	workers   int
+	maxPasses int
+	rangeMS   int
+}
+
+func (v *Verifier) rangeTimeoutMS() int {
+	if v.rangeMS > 0 {
+		return v.rangeMS
+	}
+	return v.rangeTimeout * 1000
 }
 
 func loadVerifier(root string) (*Verifier, error) {
@@ -164,12 +174,44 @@ func (v *Verifier) splitCombos(splits []Split) [][]int64 {
 	return combos
 }
 
+// rootSide returns "l" or "r" when e is an access path rooted at that pair side.
+func rootSide(e ast.Expr) string {
+	switch t := e.(type) {
+	case *ast.SelectorExpr:
+		if id, ok := t.X.(*ast.Ident); ok && (id.Name == "l" || id.Name == "r") {
+			return id.Name
+		}
+		return rootSide(t.X)
+	case *ast.IndexExpr:
+		return rootSide(t.X)
+	case *ast.ParenExpr:
+		return rootSide(t.X)
+	case *ast.StarExpr:
+		return rootSide(t.X)
+	}
+	return ""
+}
+
+func (x *Exec) addSubst(term, lit string) {
+	if isLiteral(term) {
+		return
+	}
+	if x.subst == nil {
+		x.subst = map[string]string{}
+	}
+	x.subst[term] = lit
+}
+
 // stabilize runs gen until no range obligation fails: sites whose result cannot be proved to stay
 // within the range of their type are re-encoded with exact wrap-around semantics.
 func (v *Verifier) stabilize(gen func(mustWrap map[string]bool) *Exec) *Exec {
 	mustWrap := map[string]bool{}
 	var x *Exec
-	for pass := 0; pass < 6; pass++ {
+	maxPass := 6
+	if v.maxPasses > 0 {
+		maxPass = v.maxPasses
+	}
+	for pass := 0; pass < maxPass; pass++ {
 		x = gen(mustWrap)
 		var ranges []*Obligation
 		for _, o := range x.obs {
@@ -180,7 +222,7 @@ func (v *Verifier) stabilize(gen func(mustWrap map[string]bool) *Exec) *Exec {
 		if len(ranges) == 0 {
 			return x
 		}
-		solveBatch(ranges, v.vcDir, v.rangeTimeout*1000)
+		solveBatch(ranges, v.vcDir, v.rangeTimeoutMS())
 		n := 0
 		for _, o := range ranges {
 			if o.Status != "proved" {
@@ -193,6 +235,46 @@ func (v *Verifier) stabilize(gen func(mustWrap map[string]bool) *Exec) *Exec {
 		}
 	}
 	// did not stabilise: wrap every site
+	x = gen(map[string]bool{"*": true})
+	return x
+}
+
+// stabilizeNames is stabilize that also reports the names of the range obligations that had to be
+// re-encoded with wrap-around (recorded in the sweep baseline).
+func (v *Verifier) stabilizeNames(gen func(mustWrap map[string]bool) *Exec, names *[]string) *Exec {
+	mustWrap := map[string]bool{}
+	var x *Exec
+	maxPass := 6
+	if v.maxPasses > 0 {
+		maxPass = v.maxPasses
+	}
+	for pass := 0; pass < maxPass; pass++ {
+		x = gen(mustWrap)
+		var ranges []*Obligation
+		for _, o := range x.obs {
+			if o.Kind == "range" {
+				ranges = append(ranges, o)
+			}
+		}
+		if len(ranges) == 0 {
+			return x
+		}
+		solveBatch(ranges, v.vcDir, v.rangeTimeoutMS())
+		n := 0
+		for _, o := range ranges {
+			if o.Status != "proved" {
+				mustWrap[o.site] = true
+				if pass == 0 {
+					// only first-pass names are stable (later passes renumber after wrapped sites vanish)
+					*names = append(*names, o.Name)
+				}
+				n++
+			}
+		}
+		if n == 0 {
+			return x
+		}
+	}
 	x = gen(map[string]bool{"*": true})
 	return x
 }
@@ -246,6 +328,7 @@ func (v *Verifier) genFunc(fc *FuncContract, fn *ssa.Function, combo []int64, mu
 			continue
 		}
 		x.assume(st, "(= "+t+" "+smtInt(combo[i])+")")
+		x.addSubst(t, smtInt(combo[i]))
 	}
 	for _, r := range fc.Requires {
 		t, err := x.specBool(env, r.Expr)
@@ -406,6 +489,7 @@ func (v *Verifier) genPair(p *Pair, combo []int64, mustWrap map[string]bool) *Ex
 			continue
 		}
 		x.assume(pre, "(= "+t+" "+smtInt(combo[i])+")")
+		x.addSubst(t, smtInt(combo[i]))
 	}
 	var later []*Clause
 	for _, a := range p.Assumes {
@@ -419,6 +503,27 @@ func (v *Verifier) genPair(p *Pair, combo []int64, mustWrap map[string]bool) *Ex
 			continue
 		}
 		x.assume(pre, t)
+		// equalities between a right-side input and a left-side input additionally identify the two
+		// symbols (the right side then computes over the left side's names: congruence for free)
+		for _, c := range conjuncts(a.Expr) {
+			be, ok := c.(*ast.BinaryExpr)
+			if !ok || be.Op != token.EQL {
+				continue
+			}
+			lhs, rhs := be.X, be.Y
+			if rootSide(rhs) != "r" {
+				lhs, rhs = rhs, lhs
+			}
+			if rootSide(rhs) != "r" || rootSide(lhs) != "l" {
+				continue
+			}
+			lv, e1 := x.spec(env, lhs)
+			rv, e2 := x.spec(env, rhs)
+			if e1 != nil || e2 != nil || len(lv.L) != 1 || len(rv.L) != 1 || lv.L[0] == rv.L[0] {
+				continue
+			}
+			x.addSubst(rv.L[0], lv.L[0])
+		}
 	}
 	ls.st.pc = pre.pc
 	rs.st.pc = pre.pc
